@@ -263,14 +263,19 @@ def _process_properties(  # noqa: PLR0912, PLR0911
             merged_prop.header = f"Found conflicting properties named {new_prop.name} when creating {class_name}"
             return merged_prop
 
-        for other_prop in properties.values():
+        for other_prop in list(properties.values()):
             if other_prop.name == merged_prop.name:
                 continue  # Same property, probably just got merged
             if other_prop.python_name != merged_prop.python_name:
                 continue
+            # Both get renamed. They may be the property objects of an allOf parent, shared with the parent's own model:
+            # rename copies, the parent keeps its attribute name.
+            merged_prop = evolve(merged_prop)
+            other_prop = evolve(other_prop)
             naming_error = _resolve_naming_conflict(merged_prop, other_prop, config)
             if naming_error is not None:
                 return naming_error
+            properties[other_prop.name] = other_prop
 
         properties[merged_prop.name] = merged_prop
         return None
